@@ -1,0 +1,38 @@
+//go:build verif
+// +build verif
+
+package pdnode_coord
+
+// Contracts for the deductive verifier in /verif (govc).  Comment-only file,
+// compiled only under the build tag `verif`.
+
+//@ property C17
+
+// ring (v1) layout: partition i gets the `replica` consecutive ring slots starting at (h + i), where h is
+// the namespace hash: exactly `replica` entries each, a function of (ns, counts, ring) alone
+//@ func fillPartitionMapV1(ns string, partitionNum int, replica int, sortedNodes SortableStrings) [][]string
+//@   requires 0 <= partitionNum && partitionNum < 1048576 && 0 <= replica && replica < 1048576 && (partitionNum > 0 && replica > 0 ==> len(sortedNodes) >= 1)
+//@   ensures len(result) == partitionNum && fresh(result)
+//@   ensures exists h int :: 0 <= h && h < 4294967296 && (forall i int, j int :: 0 <= i && i < partitionNum && 0 <= j && j < replica ==> len(result[i]) == replica && result[i][j] == sortedNodes[(h + i + j) % len(sortedNodes)])
+//@ loop 1
+//@   invariant 0 <= i && i <= partitionNum && len(partitionNodes) == partitionNum && fresh(partitionNodes) && 0 <= selectIndex - i && selectIndex - i < 4294967296
+//@   invariant forall a int, b int :: 0 <= a && a < i && 0 <= b && b < replica ==> len(partitionNodes[a]) == replica && partitionNodes[a][b] == sortedNodes[(selectIndex - i + a + b) % len(sortedNodes)]
+//@   invariant forall a int :: 0 <= a && a < i ==> fresh(partitionNodes[a]) && partitionNodes[a].arr != partitionNodes.arr
+//@ loop 2
+//@   invariant 0 <= j && j <= replica && len(nlist) == replica && fresh(nlist) && nlist.arr != partitionNodes.arr && sameSlice(partitionNodes[i], nlist)
+//@   invariant forall b int :: 0 <= b && b < j ==> nlist[b] == sortedNodes[(selectIndex + b) % len(sortedNodes)]
+//@   invariant forall a int, b int :: 0 <= a && a < i && 0 <= b && b < replica ==> len(partitionNodes[a]) == replica && partitionNodes[a][b] == sortedNodes[(selectIndex - i + a + b) % len(sortedNodes)]
+//@   invariant forall a int :: 0 <= a && a < i ==> fresh(partitionNodes[a]) && partitionNodes[a].arr != partitionNodes.arr && partitionNodes[a].arr != nlist.arr
+
+// too few nodes: refuse instead of producing a degraded layout
+//@ func getRebalancedNamespacePartitions(ns string, partitionNum int, replica int, oldPartitionNodes [][]string, currentNodes map[string]cluster.NodeInfo, balanceVer string) ([][]string, *cluster.CoordErr)
+//@   ensures old(len(currentNodes)) < replica ==> result0 == nil && result1 == ErrNodeUnavailable
+//@   modifies *
+
+// consecutive ring slots are distinct nodes as long as replica <= number of nodes (and the ring has no duplicates)
+//@ lemma lemmaV1Distinct(ns string, partitionNum int, replica int, sortedNodes SortableStrings, i int, j1 int, j2 int) [][]string
+//@   opt iremaxioms
+//@   requires 1 <= partitionNum && partitionNum < 1048576 && 1 <= replica && replica < 1048576 && replica <= len(sortedNodes)
+//@   requires forall a int, b int :: 0 <= a && a < b && b < len(sortedNodes) ==> sortedNodes[a] != sortedNodes[b]
+//@   requires 0 <= i && i < partitionNum && 0 <= j1 && j1 < j2 && j2 < replica
+//@   ensures result[i][j1] != result[i][j2]
